@@ -60,4 +60,20 @@ PROPS = {
         "trusted_base": COMMON_TRUSTED + ["os.Environ(), goja's wrapping of a Go map[string]string as a JS object (exercised, not proved)"],
         "assumptions": ["names in a host environment are distinct and values are well-formed UTF-8 (what the generator produces)"],
     },
+    "C12": {
+        "runner": "diff",
+        "harness": "corr-url",
+        "harness_args": ["-prop", "C12"],
+        "n": {"quick": 20000, "thorough": 1500000, "search": 200000},
+        "props_modules": ["GN.Props.C12"],
+        "theorems": ["GN.Props.C12." + t for t in [
+            "delete_eq_spec", "table_escapes_specials", "escape_shape", "unescape_escape_id", "unescape_clauses",
+            "parse_clauses", "getters", "iter_live"]],
+        "rule": "cases = a constructor form (none, query string assembled from pieces incl. '?', '&&', '+', valid/malformed %XX, ill-formed UTF-8 escapes; record; iterable of pairs; another URLSearchParams) followed by 0-15 operations (append, delete by name / name+value / name+undefined, set, sort, get, getAll, has, keys/values/entries iterators created at any time and advanced later) over a small alphabet with duplicates, empty, reserved and non-ASCII names; observed after the constructor and after every operation: Array.from(p), size, toString(), the operation's result, forEach agreement, and parse(toString()) = list on the implementation itself. The Lean driver runs the code-shaped model (index loops) and, separately, the list-level specification (filter / WHATWG set / stable merge sort). distinct_nontrivial = distinct case lines on which all three agreed",
+        "signature": lambda c, v: c.split(" ")[1],
+        "trusted_base": COMMON_TRUSTED + ["goja's string conversion (ill-formed UTF-8 -> U+FFFD, modelled by sanitizeUtf8) and property order of records (the harness passes Object.keys order)",
+                                          "Go's sort.Stable is modelled by a stable insertion sort (the result of a stable sort is unique)"],
+        "assumptions": ["sort compares names bytewise (code-point order); generated names do not mix astral characters with U+E000-U+FFFF, where UTF-16 code-unit order differs",
+                        "callbacks that mutate the list during forEach are not generated"],
+    },
 }
